@@ -48,6 +48,22 @@ Sensitivity (quick tier, seed 1, scratch copies of /repo/tornado, one mutant at 
   M4 _GzipMessageDelegate.data_received: decompressed-size check removed           -> caught  C08.body_exceeds_max_body_size
   M5 _read_chunked_body: CRLF after chunk data not checked                         -> caught  C08.reject_returned_response
   M6 _read_body: unequal duplicate Content-Length values accepted                  -> caught  C08.reject_returned_response
+  M11 _GzipMessageDelegate._next_member: "too short to tell" test wrong for EMPTY leftover (later gzip members dropped when a
+     delivery boundary falls exactly at the end of a member)  -> caught at seeds 1,2,3  C08.body_mismatch - by the deterministic
+     family "multi-member gzip x segment boundary / HTTP chunk boundary exactly at the member end" (grid; case field
+     `seg_member_end`), added after a re-verification showed that sampling alone had stopped finding it at some seeds.
+     Harness fix from the same re-verification: the generator-vs-reference self-check compared headers as one ordered list across
+     names (tree-independent, but it fired as exit 2 while a new header kind was being added); it now compares per-name
+     multimaps, and the tree-dependent assertions ("client did not connect", history member not run, unexpected exception from
+     _Connector.start) are reported as violations instead of harness errors.
+  M10 HTTPHeaders.parse_line: obs-fold continuation trimmed with str.strip() instead of strip(HTTP_WHITESPACE) (0x85 / 0xA0 at
+     the edge of a folded line are lost; 0x1c-0x1f there are silently dropped instead of rejected)
+     -> caught at seeds 1,2,3  C08.folded_header_value.  Found by independent "boundary / encoding" mutation testing: the obs-fold
+     EITHER class only compared the status.  Added: if a folded response is accepted, its header multimap must equal the two
+     parts joined by SP(s) with every other octet intact; mutations value_edge_obstext (accept) / fold_edge_obstext (EITHER) /
+     value_edge_ctl / fold_edge_ctl (reject: CTL is never field content) with a deterministic family over every octet that
+     str.strip() eats but HTTP does not (0x0b 0x0c 0x1c-0x1f 0x7f 0x85 0xA0, plus 0x80 / 0xFF) x begin / end / both ends x plain
+     value / fold continuation; 0x85 and 0xA0 were added to the value alphabet.
   M9 _create_connection: HTTP1ConnectionParameters built once and cached on the CLIENT although `decompress` is per request
      -> caught at seeds 1,2,3 (C08.headers / C08.body_mismatch on the later fetch).  Found by independent "state carried over"
      mutation testing: every case used a fresh client for a single fetch.  REUSE is now a generated dimension: a case may carry a
@@ -69,6 +85,7 @@ Sensitivity (quick tier, seed 1, scratch copies of /repo/tornado, one mutant at 
      body are no longer clamped either.  (HTTPRequest has no per-request max_body_size, so the client level is the only channel.)
 """
 import gzip as _gzip
+import re
 
 from hypothesis import strategies as st
 
@@ -112,6 +129,9 @@ HEAD_REJECT = [  # malformed status line / header block of the final response
     "version_short", "version_long", "version_lower", "version_alpha",
     "header_no_colon", "header_sp_before_colon", "header_bad_name", "header_empty_name",
     "header_nul_value", "header_del_value", "header_ctl_value", "header_bare_cr_value",
+    # a control character (0x0b, 0x0c, 0x1c-0x1f, 0x7f: whitespace for str.strip(), but not HTTP whitespace) at the edge of
+    # a field value / of an obs-fold continuation: never valid field content
+    "value_edge_ctl", "fold_edge_ctl",
 ]
 CL_REJECT = [
     "cl_conflict", "cl_plus", "cl_neg", "cl_hex", "cl_space", "cl_empty", "cl_underscore", "cl_sup2",
@@ -123,13 +143,20 @@ CHUNK_REJECT = [
     "chunk_size_plus", "chunk_no_crlf", "chunk_lf_only", "chunk_missing_last", "chunk_short_data",
 ]
 INTERIM_REJECT = ["interim_cl", "interim_te"]
-ACCEPT_VARIANTS = ["cl_dup_same", "cl_list_same", "cl_leading_zeros", "te_case"]
+# value_edge_obstext: an obs-text octet that str.strip() would eat (0x85 NEL, 0xA0 NBSP) or a plain one at the edge of a value
+ACCEPT_VARIANTS = ["cl_dup_same", "cl_list_same", "cl_leading_zeros", "te_case", "value_edge_obstext"]
+EDGE_OBSTEXT = [0x80, 0x85, 0xA0, 0xFF]
+EDGE_CTL = [0x0B, 0x0C, 0x1C, 0x1D, 0x1E, 0x1F, 0x7F]
+FOLD_EITHER = {"obs_fold", "fold_edge_obstext"}
 EITHER_MUTS = [
     "bare_lf", "bare_lf_one", "obs_fold", "leading_crlf", "chunk_ext", "chunk_trailer",
     "nobody_cl_nonzero_204", "nobody_te_204", "version_20", "version_09",
     # a body-less response (204 / 304 / answer to HEAD) that announces a body AND is followed by those bytes: the client
     # may ignore or reject the header, but must never deliver the bytes as the body of this response
     "bodiless_te_payload", "bodiless_cl_payload", "bodiless_both_payload",
+    # obs-fold whose continuation text begins / ends with an obs-text octet (0x85, 0xA0, ...): if the client accepts the fold,
+    # the value is the two parts joined by SP(s) with those octets intact
+    "fold_edge_obstext",
 ]
 BODILESS_PAYLOAD = {"bodiless_te_payload", "bodiless_cl_payload", "bodiless_both_payload"}
 FIRST_OR_ERROR = ["trailing_bytes"]
@@ -141,7 +168,7 @@ ALL_MUTS = (HEAD_REJECT + CL_REJECT + TE_REJECT + CHUNK_REJECT + INTERIM_REJECT 
             + EITHER_MUTS + FIRST_OR_ERROR)
 
 HEADER_NAMES = ["X-A", "x-a", "X-b", "Set-Cookie", "Content-Type", "Etag", "Server", "set-cookie"]
-VALUE_ALPHABET = "ab1,;=\"/ \t\xe9\xff~"
+VALUE_ALPHABET = "ab1,;=\"/ \t\xe9\xff~\x85\xa0"
 REASONS = ["OK", "", "Not Found", "Caf\xe9 \xff!", "a\tb", "Continue"]
 CODES = [200, 200, 200, 204, 206, 301, 304, 404, 500]
 
@@ -213,6 +240,7 @@ def member_s(draw):
                                  st.just(("Z", 0)))),
         "mhs": draw(st.one_of(st.none(), st.none(), st.none(), st.sampled_from([-1, 0, 7]))),
         "timeouts": draw(st.sampled_from([True, True, False])),
+        "edge": draw(st.tuples(st.sampled_from(EDGE_OBSTEXT + EDGE_CTL), st.integers(0, 2))),
     }
 
 
@@ -309,6 +337,7 @@ def build(case):
             payload = b"hello"
     nobody = method == "HEAD" or code in (204, 304)
     W, gzkind = encode_body(payload, enc, case["trunc"])
+    b.member1_len = len(gz(payload[: len(payload) // 2])) if enc == "multi" else 0
     if mut == "cl_short" and not W:
         W = b"xy"
 
@@ -428,6 +457,20 @@ def build(case):
     }
     if mut in bad:
         lines.insert(1 + min(case["fpos"], len(lines) - 1), bad[mut])
+    if mut in ("value_edge_obstext", "value_edge_ctl", "fold_edge_obstext", "fold_edge_ctl"):
+        code_, pos_ = case.get("edge") or (0xA0, 0)
+        pool = EDGE_OBSTEXT if mut.endswith("obstext") else EDGE_CTL
+        ch_ = bytes([pool[code_ % len(pool)] if code_ < 0x100 and code_ not in pool else code_ if code_ in pool else pool[0]])
+        text = [ch_ + b"mid", b"mid" + ch_, ch_ + b"mid" + ch_][pos_ % 3]
+        if mut.startswith("value_edge"):
+            k_ = min(case["fpos"], len(lines) - 1)
+            lines.insert(1 + k_, b"X-Edge: \t" + text + b" \t")
+            if mut == "value_edge_obstext":
+                expected_headers.insert(k_, ("X-Edge", text.decode("latin-1")))
+        else:
+            lines.insert(1, b"X-Fold: v1")
+            lines.insert(2, b" \t" + text + b"\t ")
+            expected_headers.insert(0, ("X-Fold", "v1 " + text.decode("latin-1")))
     if mut == "obs_fold":
         lines.insert(1, b"X-Fold: v1")
         lines.insert(2, b"  \tcont")
@@ -679,8 +722,10 @@ def cross_check(b, case):
         fin = rs[-1]
         if fin.code != b.code or fin.body != b.body_wire or len(rs) != len(b.interim) + 1:
             raise AssertionError("generator/reference disagreement on accept result: %r vs %r" % (fin, case))
-        want = [(n.lower(), v) for n, v in b.exp_headers if n.lower() not in ("x-consumed-content-encoding",)]
-        got = [(n.lower(), v) for n, v in fin.headers if not (b.decode and n.lower() == "content-encoding")]
+        # (tree-independent self-check of generator vs reference reader; per-name value lists - the relative order of
+        # DIFFERENT names is not part of the header multimap)
+        want = multimap([(n, v) for n, v in b.exp_headers if n.lower() not in ("x-consumed-content-encoding",)])
+        got = multimap([(n, v) for n, v in fin.headers if not (b.decode and n.lower() == "content-encoding")])
         if want != got:
             raise AssertionError("generator/reference disagreement on headers: %r vs %r" % (got, want))
     if kind == "reject" and b.mut is not None and b.verdict[1].split(":")[0] in ("head", "interim", "framing"):
@@ -758,7 +803,11 @@ def run_members(members, one_segment):
             s = fake.calls[n0].stream
             state["request"] = bytes(s.wire)
             data = b.delivered
-            s.feed(data, segments_for(len(data), case["seg"], one_segment))
+            segs = segments_for(len(data), case["seg"], one_segment)
+            if case.get("seg_member_end") and not one_segment and b.member1_len:
+                # a TCP segment ends exactly where the first gzip member ends (then `seg_member_end`-byte segments)
+                segs = [b.head_end + b.member1_len] + [case["seg_member_end"]] * 40
+            s.feed(data, segs)
             end = case["end"]
             if end == "eof":
                 s.feed_eof()
@@ -925,6 +974,11 @@ def evaluate(ctx, case, b, st_, tag):
             r = o[1]
             if r.code != b.code and why not in ("version_20", "version_09"):
                 ctx.fail("C08.either_wrong_status", dict(base, want=b.code))
+            if why in FOLD_EITHER:
+                # a client that accepts the fold replaces it by one or more SP (RFC 9112 5.2) and keeps every other octet
+                norm = lambda d: {k: [re.sub(r"^v1 +", "v1 ", v) for v in vs] for k, vs in d.items()}  # noqa: E731
+                if norm(multimap(r.headers.get_all())) != norm(multimap(b.exp_headers)):
+                    ctx.fail("C08.folded_header_value", dict(base, want=sorted(multimap(b.exp_headers).items())))
             if b.gz_prefix_of is not None:
                 got = b"".join(st_["chunks"]) if case["streaming"] else r.body
                 if not b.gz_prefix_of.startswith(got):
@@ -952,7 +1006,7 @@ def check_header_callback(ctx, base, b, hlines):
 
 DETERMINISTIC_EITHER = {"bare_lf", "bare_lf_one", "obs_fold", "leading_crlf", "chunk_ext", "chunk_trailer",
                         "nobody_cl_nonzero_204", "nobody_te_204", "version_20", "version_09",
-                        "bodiless_te_payload", "bodiless_cl_payload", "bodiless_both_payload",
+                        "bodiless_te_payload", "bodiless_cl_payload", "bodiless_both_payload", "fold_edge_obstext",
                         "framing_mut_on_bodiless", "wire_over_max", "header_over_limit"}
 
 
@@ -972,9 +1026,12 @@ def run_case(ctx, case):
     for m, b in members:
         cross_check(b, m)
     sts1 = run_members(members, one_segment=False)
-    if any(st.get("no_connect") for st in sts1):
-        raise AssertionError("client did not connect")
     sts2 = run_members(members, one_segment=True)
+    if any(st.get("no_connect") or "outcome" not in st for st in sts1 + sts2):
+        # depends on the tree under test (the client did not open exactly one connection for a fetch): a violation
+        ctx.fail("C08.no_connection_for_fetch", {"case": {k: v for k, v in case.items() if k not in ("payload", "history")}})
+        ctx.note(case, {"no_connection"}, False)
+        return
     labels = set()
     nontrivial = False
     for idx, (m, b) in enumerate(members):
@@ -1052,6 +1109,28 @@ def grid_cases():
                     for streaming in [False, True]:
                         yield _base(enc=enc, framing=framing, decompress=decompress, mbs=mbs, streaming=streaming,
                                     payload=b"abcdefgh" * 150, chunks=[100, 333])
+    # multi-member gzip with a delivery boundary EXACTLY at the end of the first member: a TCP segment boundary
+    # (Content-Length / close-delimited / chunked framing) and an HTTP chunk boundary (chunk size == member length)
+    for payload in [b"hello world", b"abcdefgh" * 150, b"\x00" * 3]:
+        m1 = len(gz(payload[: len(payload) // 2]))
+        for streaming in (False, True):
+            for rest in (1, 7, 4096):
+                for framing in ("cl", "close"):
+                    yield _base(enc="multi", payload=payload, framing=framing, streaming=streaming, seg_member_end=rest)
+                yield _base(enc="multi", payload=payload, framing="chunked", chunks=[m1, 5], streaming=streaming,
+                            seg={"sizes": [rest], "cycle": True, "blk": 4096})
+                yield _base(enc="multi", payload=payload, framing="chunked", chunks=[m1], hexfmt=2, streaming=streaming,
+                            seg={"sizes": [], "cycle": False, "blk": 70000}, interim=[[100, []]])
+    # boundary family: every octet that str.strip() treats as whitespace but HTTP does not (plus first/last obs-text),
+    # at the begin / end / both ends of a plain field value and of an obs-fold continuation
+    for code_ in EDGE_OBSTEXT:
+        for pos_ in range(3):
+            yield _base(mut="value_edge_obstext", edge=(code_, pos_))
+            yield _base(mut="fold_edge_obstext", edge=(code_, pos_), header_cb=True)
+    for code_ in EDGE_CTL:
+        for pos_ in range(3):
+            yield _base(mut="value_edge_ctl", edge=(code_, pos_))
+            yield _base(mut="fold_edge_ctl", edge=(code_, pos_))
     # histories: 2-3 fetches through one client whose per-request options differ (each judged on its own)
     for enc in ["gzip", None]:
         for d1 in (True, False):
